@@ -658,9 +658,8 @@ class ListenerRequestHandler(BaseHTTPRequestHandler):
             return
 
         # Start processing the request
-        body = self.rfile.read(content_len)
-
         try:
+            body = self.rfile.read(content_len)
             msgid, methodname, params = self.parse_export_request(body)
         except (CIMXMLParseError, XMLParseError) as exc:
             self.send_http_error(400, "request-not-well-formed", str(exc))
@@ -673,6 +672,15 @@ class ListenerRequestHandler(BaseHTTPRequestHandler):
             return
         except CIMVersionError as exc:
             self.send_http_error(400, "unsupported-version", str(exc))
+            return
+        except Exception as exc:  # pylint: disable=broad-except
+            # Any other exception (e.g. MemoryError for a huge Content-Length,
+            # or an exception the CIM-XML parser does not handle) must not
+            # drop the connection without a response.
+            self.send_http_error(
+                500, None,
+                _format("Error processing the export request: {0}: {1}",
+                        exc.__class__.__name__, exc))
             return
 
         if methodname == 'ExportIndication':
